@@ -138,12 +138,14 @@ func convert2float64(i interface{}) (float64, error) {
 func (pw *prometheusWrapper) labelsToMap(labels []metrics.T) (ret map[string]string) {
 	ret = make(map[string]string)
 
+	// label values may come from requests (e.g. the key of a watch),
+	// prometheus panics if a label value is not valid utf-8
 	for _, label := range pw.globalLabels {
-		ret[label.Name] = label.Value
+		ret[label.Name] = strings.ToValidUTF8(label.Value, "?")
 	}
 
 	for _, label := range labels {
-		ret[label.Name] = label.Value
+		ret[label.Name] = strings.ToValidUTF8(label.Value, "?")
 	}
 	return
 }
